@@ -158,15 +158,43 @@ def wide_cases(rng, ntab, per_table=8, back=True, exact=True, budget=0, tag="w",
 # composite generated tables (translation rules of F0 between correct and pass2-4 stages of the literal fragment),
 # all argument combinations, capacities from 0 up; nothing is taken from a trace.
 
-def composite_cases(rng, ntab, per_table=8, tag="wc", argmasks=None, modes_f=(4, 4, 0, 4 | 128), modes_b=(4, 4, 4 | 128)):
+def pass_literals(t):
+    """the literals of a generated table's multipass rules, as characters and as cells (through the one-to-one part of
+    the table): inputs built from them make the rules fire in both directions"""
+    import re
+    inv = {cell: ch for ch, cell in t.charcell.items()}
+    lit_c, lit_d = [], []
+    for r in t.rules:
+        if r.test is None:
+            continue
+        for mm in re.finditer(r'"([^"]*)"|@([0-9a-f-]+)', r.test + " " + (r.action or "")):
+            if mm.group(1) is not None:
+                cs = [ord(x) for x in mm.group(1)]
+                if cs and all(x in t.charcell for x in cs):
+                    lit_c.append(cs); lit_d.append([t.charcell[x] for x in cs])
+            else:
+                ds = [sum(1 << "123456789abcdef".index(d) for d in cell if d != "0") for cell in mm.group(2).split("-")]
+                if ds and all(d in inv for d in ds):
+                    lit_d.append(ds); lit_c.append([inv[d] for d in ds])
+    return lit_c, lit_d
+
+
+def composite_cases(rng, ntab, per_table=8, tag="wc", argmasks=None, modes_f=(4, 4, 0, 4 | 128), modes_b=(4, 4, 4 | 128), exact=False):
     from . import gen_table as G
     cases = []
     for i in range(ntab):
         t = G.gen_table(rng, "composite" if i % 4 else "f0", per_stage=(0, 2), biased=(i % 2 == 0))
         tn = "%s%d.ctb" % (tag, i)
         ops = ["DUMP %s" % tn]
+        lit_c, lit_d = pass_literals(t)
+
+        def mix(lits, rnd):
+            u = []
+            while len(u) < 10 and rng.random() < 0.85:
+                u += list(rng.choice(lits)) if (lits and rng.random() < 0.6) else rnd()
+            return u[:12]
         for _ in range(per_table):
-            u = [c for c in (G.rand_text_rules(rng, t, 10) if rng.random() < 0.5 else G.rand_text(rng, t, 10, undefined=0.04)) if c]
+            u = [c for c in mix(lit_c, lambda: (G.rand_text_rules(rng, t, 4) if rng.random() < 0.5 else G.rand_text(rng, t, 3, undefined=0.04))) if c]
             n = len(u)
             am = rng.choice(argmasks or [0, 12, 28, 28, 20, 24, 4, 8, 29, 30, 31])
             if n == 0:
@@ -176,7 +204,7 @@ def composite_cases(rng, ntab, per_table=8, tag="wc", argmasks=None, modes_f=(4,
             tf = common.wide([0] * n) if am & 1 else "-"
             sp = common.hexbytes(bytes(rng.choice(b"*012 ") for _ in range(n + 1))) if am & 2 else "-"
             ops.append("FWD %s %d %d %s %d %s %s %s" % (tn, rng.choice(modes_f), cap, cur, am, common.wide(u), tf, sp))
-            c = [x for x in G.rand_cells(rng, t, 10, undefined=0.04)]
+            c = [0x8000 | (x & 0x7fff) for x in mix(lit_d, lambda: [x & 0x7fff for x in G.rand_cells(rng, t, 3, undefined=0.04)])]
             n = len(c)
             amb = am & ~3            # (typeform/spacing are output arrays in back-translation; covered elsewhere)
             if n == 0:
@@ -184,7 +212,8 @@ def composite_cases(rng, ntab, per_table=8, tag="wc", argmasks=None, modes_f=(4,
             cur = str(rng.randint(0, n - 1)) if amb & 16 else "-"
             cap = rng.choice([n, n + 1, 2 * n + 2, 40, 3, 1, 0])
             ops.append("BWD %s %d %d %s %d %s - -" % (tn, rng.choice(modes_b), cap, cur, amb, common.wide(c)))
-        cases.append(common.Case("%s%d" % (tag, i), ["HOOK trace 1", "HOOK budget 400000", "TBL %s %s" % (tn, common.hexbytes(t.text()))], ops,
+        cases.append(common.Case("%s%d" % (tag, i), ["HOOK trace 1", "HOOK budget 400000"] + (["HOOK exact 1"] if exact else []) +
+                                 ["TBL %s %s" % (tn, common.hexbytes(t.text()))], ops,
                                  {"tn": tn, "text": t.text(), "whole": True}))
     return cases
 
